@@ -1,6 +1,7 @@
 """Index of contract modules, trusted base and glue assumptions per property."""
 MODULES = [
     'contracts.c18_points',
+    'contracts.c16_integer',
 ]
 
 EXTRA_CHECKS = {}
